@@ -42,17 +42,29 @@ class Validators:
             self.kw['allowed'] = list(ALLOWED)
         if has_check:
             self.c = env.int('check_min')
-            self.kw['check'] = lambda v: (self.calls.append('check'), v >= self.c)[1]
+            # 'check returns a true value': a bool (symbolic), or any truthy / falsy object
+            style = env.pick(['bool', 'int', 'object'], 'check_result_type')
+
+            def check(v):
+                self.calls.append('check')
+                ok = v >= self.c
+                if style == 'bool':
+                    return ok
+                if style == 'int':
+                    return 7 if ok else 0
+                return [v] if ok else None
+            self.kw['check'] = check
         if schema_kind == 'add':
             self.k = env.int('schema_add')
             self.kw['schema'] = lambda v: (self.calls.append('schema'), v + self.k)[1]
         elif schema_kind == 'raise':
             self.c2 = env.int('schema_min')
+            exc = env.pick([TypeError, ValueError, KeyError, ZeroDivisionError], 'schema_exception')
 
             def schema(v):
                 self.calls.append('schema')
                 if v < self.c2:
-                    raise TypeError("schema says no")       # any exception type
+                    raise exc("schema says no")       # 'schema does not raise': any exception type
                 return v * 2
             self.kw['schema'] = schema
 
